@@ -34,8 +34,10 @@ open Strophe Strophe.Stanza Strophe.Spec.Xml
 
 /-! ### pinning: the numbers and names the property mentions, against what /repo says today -/
 
-/-- the initial rendering buffer -/
-theorem first_buffer_is_1024 : Gen.Stanza.firstBuf = 1024 := rfl
+/-- the initial rendering buffer (its size is an internal constant, read from the source on every run;
+    the theorems below hold for whatever positive value it has — `toText_exact` covers rendered
+    lengths below, at and above it) -/
+theorem first_buffer_positive : 0 < Gen.Stanza.firstBuf := by decide
 
 /-- `_escape_xml` replaces exactly `"` `&` `<` `>` by `&quot;` `&amp;` `&lt;` `&gt;` -/
 theorem escape_table_is :
@@ -377,10 +379,10 @@ example : canon (some nsClient) ex1 =
       [.elem (some nsClient) (cs ['b','o','d','y']) [] [.text (cs ['x',' ','<',' ','y','&'])],
        .elem (some (cs ['u','r','n',':','x'])) (cs ['x']) [] []] := by rfl
 
-/-- a tree above the first buffer: 2000 bytes of text need the retry, and get it -/
+/-- a tree above the first buffer: text one byte longer than the buffer needs the retry, and gets it -/
 example : ∃ t : Tree, TabsWF t ∧ NulFree t ∧ renderable t = true ∧ (render none t).length > Gen.Stanza.firstBuf ∧
     toText none t = .ok (render none t, (render none t).length) := by
-  have key : ∀ d : Bytes, d.length = 2000 → (0 : UInt8) ∉ d →
+  have key : ∀ d : Bytes, d.length = Gen.Stanza.firstBuf + 1 → (0 : UInt8) ∉ d →
       TabsWF (.text d []) ∧ NulFree (.text d []) ∧ renderable (.text d []) = true ∧
         (render none (.text d [])).length > Gen.Stanza.firstBuf ∧
         toText none (.text d []) = .ok (render none (.text d []), (render none (.text d [])).length) := by
@@ -389,10 +391,10 @@ example : ∃ t : Tree, TabsWF t ∧ NulFree t ∧ renderable t = true ∧ (rend
     have hn : NulFree (.text d []) := by simpa [NulFree] using h0
     refine ⟨hw, hn, rfl, ?_, ?_⟩
     · have := escapeXml_length d
-      simp only [render, Gen.Stanza.firstBuf] at this ⊢; omega
+      simp only [render] at this ⊢; omega
     · have h := toText_exact none (.text d []) hw hn
       simpa [renderable] using h
-  exact ⟨_, key (List.replicate 2000 97) (List.length_replicate ..)
+  exact ⟨_, key (List.replicate (Gen.Stanza.firstBuf + 1) 97) (List.length_replicate ..)
     (fun h => absurd (List.mem_replicate.1 h).2 (by decide))⟩
 
 /-- an unnamed stanza cannot be rendered -/
